@@ -89,7 +89,7 @@ fn mk(name: &str, chans_a: Vec<ChanSpec>, chans_b: Vec<ChanSpec>, plan: &[(usize
     let msgs = plan.iter().map(|(side, chan, len, task)| { let i = idx.entry((*side, *chan)).or_insert(0usize); let d = payload(*side, *chan, *i, *len); *i += 1;
         Msg { side: *side, chan: *chan, data: d, phase: 0, task: *task } }).collect();
     C12Case { name: name.into(), case: Case { cfg, chans: [chans_a, chans_b], msgs, faults: faults_parse(faults), deadline: Duration::from_secs(10),
-        settle: Duration::from_millis(80), closes }, multi_thread: mt }
+        settle: Duration::from_millis(80), closes, end: End::None }, multi_thread: mt }
 }
 
 fn cases(args: &Args, rng: &mut Rng) -> Vec<C12Case> {
@@ -117,11 +117,65 @@ fn cases(args: &Args, rng: &mut Rng) -> Vec<C12Case> {
         v.push(mk(&format!("multi{i}"), a.clone(), b.clone(), &plan, f, (None, Some(0xFFFF_FFFB)), vec![], false));
         if i < 2 { v.push(mk(&format!("multi{i}-mt"), a, b, &plan, f, (None, None), vec![], true)); }
     }
+    // an impatient application: send() from the first moment on, before the association / the in-band channel is open
+    // (task ids ≥ 200 do not wait for Open); whatever send() accepted on a reliable channel has to arrive
+    for (i, f) in ["-", "B.INITACK.1.drop", "B.COOKIEACK.1.drop", "A.DATA.1.drop"].iter().enumerate() {
+        let a = vec![spec(2, Kind::RelOrd, false, 0), spec(1, Kind::RelOrd, true, 0)];
+        let b = vec![spec(1, Kind::RelOrd, true, 0)];
+        let plan = [(0usize, 2u16, 100usize, 200u8), (0, 2, 3000, 200), (0, 2, 7, 200), (0, 1, 50, 201), (0, 1, 60, 201), (1, 1, 9, 200)];
+        v.push(mk(&format!("send-before-open{i}"), a, b, &plan, f, (None, None), vec![], false));
+    }
+    // an ordered partially reliable channel whose very first message is abandoned still delivers the later ones
+    // (the later ones are sent once the link is quiet again: phase 1)
+    for (name, neg) in [("pr-ordered-first-message-abandoned", true), ("pr-ordered-first-message-abandoned-dcep", false)] {
+        let mut c = mk(name, vec![spec(2, Kind::RexOrd, neg, 0)], if neg { vec![spec(2, Kind::RexOrd, true, 0)] } else { vec![] },
+            &[(0, 2, 500, 0), (0, 2, 30, 0), (0, 2, 40, 0)], if neg { "A.TSN.0.dropn2" } else { "A.TSN.1.dropn2" }, (Some(7000), Some(100)), vec![], false);
+        c.case.msgs[1].phase = 1; c.case.msgs[2].phase = 1;
+        v.push(c);
+    }
     // partial reliability under loss (the code's known PR defects show up here)
     v.push(mk("pr-unordered-fragmented-loss", vec![spec(2, Kind::RexUnord, true, 0)], vec![spec(2, Kind::RexUnord, true, 0)],
         &[(0, 2, 20_000, 0), (0, 2, 30, 0), (0, 2, 40, 0)], "A.DATA.2.drop", (Some(5000), Some(1000)), vec![], false));
     v.push(mk("pr-with-reliable-sibling", vec![spec(2, Kind::RexUnord, true, 0), spec(1, Kind::RelOrd, true, 0)], vec![spec(2, Kind::RexUnord, true, 0), spec(1, Kind::RelOrd, true, 0)],
         &[(0, 2, 3000, 0), (0, 1, 50, 0), (0, 1, 60, 0)], "A.DATA.1.drop", (Some(1000), Some(5000)), vec![], false));
+    // Close: the application closes a channel twice; closes then tears the association down; teardown by local close,
+    // ABORT, SHUTDOWN-ACK, SHUTDOWN-COMPLETE; SHUTDOWN alone (answered, association stays)
+    for (name, closes, end) in [
+        ("close-twice", vec![(0usize, 1u16), (0, 1)], End::None),
+        ("close-both-sides", vec![(0, 1), (1, 1), (1, 2)], End::None),
+        ("close-then-local-teardown", vec![(0, 1)], End::LocalClose(0)),
+        ("close-then-abort", vec![(1, 2)], End::Inject(1, 6)),
+        ("teardown-local", vec![], End::LocalClose(1)),
+        ("teardown-abort", vec![], End::Inject(0, 6)),
+        ("teardown-shutdown-ack", vec![], End::Inject(1, 8)),
+        ("teardown-shutdown-complete", vec![], End::Inject(0, 14)),
+        ("shutdown-answered", vec![], End::Inject(1, 7)),
+    ] {
+        let mut c = mk(name, vec![spec(1, Kind::RelOrd, true, 0), spec(2, Kind::RelUnord, false, 0)], vec![spec(1, Kind::RelOrd, true, 0)],
+            &[(0, 1, 50, 0), (0, 2, 1500, 0), (1, 1, 9, 0), (1, 2, 10, 0)], "-", (None, None), closes, false);
+        c.case.end = end;
+        v.push(c);
+    }
+    // in-band channels whose DCEP OPEN does not fit one DATA chunk (label + protocol >= 1161 bytes), next to a negotiated sibling
+    for (i, (ll, pl)) in [(1200usize, 0usize), (1150, 0), (600, 600), (3000, 10), (20_000, 2000)].iter().enumerate() {
+        let mut c = mk(&format!("dcep-long-label{i}"), vec![spec(2, Kind::RelOrd, false, 0), spec(1, Kind::RelOrd, true, 0), spec(4, Kind::RelUnord, false, 0)], vec![spec(1, Kind::RelOrd, true, 0)],
+            &[(0, 1, 50, 0), (0, 2, 70, 0), (0, 1, 60, 0), (1, 2, 30, 0), (0, 4, 2000, 0), (1, 1, 9, 0)], if i % 2 == 0 { "-" } else { "A.DATA.1.drop+A.DATA.3.dup" }, (None, None), vec![], false);
+        c.case.chans[0][0].label = "L".repeat(*ll);
+        c.case.chans[0][0].protocol = "p".repeat(*pl);
+        c.case.chans[0][2].label = format!("é{}", "x".repeat(*ll / 2));
+        v.push(c);
+    }
+    // a label longer than the 16-bit DCEP length field (multi-byte characters: the truncated length cuts one in two)
+    {
+        let mut c = mk("dcep-huge-label", vec![spec(2, Kind::RelOrd, false, 0), spec(1, Kind::RelOrd, true, 0)], vec![spec(1, Kind::RelOrd, true, 0)],
+            &[(0, 1, 50, 0), (0, 1, 60, 0), (1, 1, 9, 0)], "-", (None, None), vec![], false);
+        c.case.chans[0][0].label = "日".repeat(22_000);
+        v.push(c);
+        let mut c = mk("dcep-huge-label-ascii", vec![spec(2, Kind::RelOrd, false, 0), spec(1, Kind::RelOrd, true, 0)], vec![spec(1, Kind::RelOrd, true, 0)],
+            &[(0, 1, 50, 0), (0, 1, 60, 0), (1, 1, 9, 0)], "-", (None, None), vec![], false);
+        c.case.chans[0][0].label = "L".repeat(70_000);
+        v.push(c);
+    }
     // FORWARD-TSN lost together with the chunk it skips; FORWARD-TSN across the TSN wrap (initial TSN 0)
     v.push(mk("pr-forward-tsn-lost", vec![spec(2, Kind::RexUnord, true, 0), spec(1, Kind::RelOrd, true, 0)], vec![spec(2, Kind::RexUnord, true, 0), spec(1, Kind::RelOrd, true, 0)],
         &[(0, 2, 100, 0), (0, 1, 50, 0), (0, 1, 60, 0)], "A.DATA.1.drop", (Some(7000), Some(5000)), vec![], false));
@@ -203,11 +257,20 @@ fn oracle(c: &Case, o: &Outcome) -> Vec<(String, String)> {
                 }
             }
             if !pr && delivered.len() < submitted.len() && !fails.iter().any(|f| f.0.starts_with("delivered:")) {
-                let closed = o.snaps.iter().any(|s| s.state == SctpState::Closed || s.close_reason.is_some());
-                if !closed && o.send_errors.is_empty() {
+                // excused only by a close the case itself asked for, or by a channel DCEP cannot carry
+                let uncarriable = ch.label.len() > 65_535 || ch.protocol.len() > 65_535;
+                let excused = (0..2).any(|s| c.end.closes_side(s)) || c.closes.iter().any(|(_, id)| *id == ch.id) || uncarriable;
+                if !excused {
                     fails.push((if any_pr { "stall:reliable-channel-behind-abandoned-chunk".to_string() } else { "stall".to_string() },
                         format!("{who}: {} of {} delivered after {} ms", delivered.len(), submitted.len(), o.elapsed_ms)));
                 }
+            }
+            // any channel, partially reliable ones included: what is sent once the fault script is used up and the link
+            // has gone quiet (phase 1) meets no loss, so it has to arrive
+            let late: Vec<&Msg> = c.msgs.iter().filter(|m| m.side == side && m.chan == ch.id && m.phase == 1).collect();
+            if pr && !late.is_empty() && o.faults_used.iter().all(|u| *u) && !(0..2).any(|s| c.end.closes_side(s)) && !c.closes.iter().any(|(_, id)| *id == ch.id) {
+                let missing = late.iter().filter(|m| !delivered.iter().any(|d| d.as_ref() == m.data.as_slice())).count();
+                if missing > 0 { fails.push(("pr:message-sent-on-a-quiet-link-not-delivered".into(), format!("{who}: {missing} of {} messages sent after the losses never arrived", late.len()))); }
             }
             // Open exactly once, before the first message; Close at most once
             let opens = evs.iter().filter(|e| matches!(e, DataChannelEvent::Open)).count();
@@ -219,13 +282,24 @@ fn oracle(c: &Case, o: &Outcome) -> Vec<(String, String)> {
             if closes > 1 { fails.push(("close:more-than-once".into(), format!("{who}: {closes} Close events"))); }
         }
     }
-    // in-band channels appear at the peer with the creator's parameters
+    // in-band channels: opened at the creator => present at the peer with the creator's parameters;
+    // and they do open (DCEP cannot carry a label / protocol longer than 65535 bytes: those must never open)
     for side in 0..2 {
         for ch in c.chans[side].iter().filter(|c| !c.negotiated) {
-            match o.chans_final[1 - side].iter().find(|f| f.id == ch.id) {
-                None => if o.connected { fails.push(("dcep:channel-missing-at-peer".into(), format!("ch{} created by {}", ch.id, ["A", "B"][side]))); },
+            let creator_open = o.chans_final[side].iter().any(|f| f.id == ch.id && f.state != 0);
+            let carriable = ch.label.len() <= 65_535 && ch.protocol.len() <= 65_535;
+            let at_peer = o.chans_final[1 - side].iter().find(|f| f.id == ch.id);
+            if !carriable {
+                if creator_open || at_peer.is_some() { fails.push(("dcep:uncarriable-channel-opened".into(), format!("ch{}: label {} bytes", ch.id, ch.label.len()))); }
+                continue;
+            }
+            let closed = o.snaps.iter().any(|s| s.state == SctpState::Closed);
+            if o.connected && !closed && !creator_open { fails.push(("dcep:channel-never-opened".into(), format!("ch{} created by {} is still Connecting after {} ms", ch.id, ["A", "B"][side], o.elapsed_ms))); }
+            match at_peer {
+                None => if creator_open { fails.push(("dcep:channel-missing-at-peer".into(), format!("ch{} created by {}", ch.id, ["A", "B"][side]))); },
                 Some(f) => if f.label != ch.label || f.protocol != ch.protocol || f.ordered != ch.ordered || f.max_retransmits != ch.max_retransmits || f.max_lifetime != ch.max_lifetime {
-                    fails.push(("dcep:parameters-differ-at-peer".into(), format!("ch{}: {:?} vs {:?}", ch.id, f, ch)));
+                    let show = |s: &str| if s.len() > 40 { format!("{}…({} bytes)", &s[..s.char_indices().nth(20).map(|x| x.0).unwrap_or(0)], s.len()) } else { s.to_string() };
+                    fails.push(("dcep:parameters-differ-at-peer".into(), format!("ch{}: label {} vs {}, ordered {} vs {}, rexmit {:?} vs {:?}, lifetime {:?} vs {:?}", ch.id, show(&f.label), show(&ch.label), f.ordered, ch.ordered, f.max_retransmits, ch.max_retransmits, f.max_lifetime, ch.max_lifetime)));
                 }
             }
         }
@@ -270,18 +344,112 @@ pub fn run(args: &Args) {
     }
     let mut run = Run::new("c12", &args.out);
     dcep_cases(&mut run, &mut rng, args.tier_thorough);
-    // channel-type mapping: every combination
-    for ord in [true, false] { for mr in [None, Some(0u16), Some(3), Some(65535)] { for ml in [None, Some(0u16), Some(500), Some(65535)] {
-        let s = ChanSpec { id: 1, ordered: ord, negotiated: false, max_retransmits: mr, max_lifetime: ml, label: String::new(), protocol: String::new(), max_payload: None };
-        // what send_dcep_open computes (re-derived from the channel object through the real marshal path is covered by the live runs)
-        let ct: u8 = if ord { if mr.is_some() { 1 } else if ml.is_some() { 2 } else { 0 } } else if mr.is_some() { 0x81 } else if ml.is_some() { 0x82 } else { 0x80 };
-        let rp: u32 = mr.map(|v| v as u32).or(ml.map(|v| v as u32)).unwrap_or(0);
-        let back_ord = ct & 0x80 == 0;
-        let back_mr = if ct & 3 == 1 { Some(rp as u16) } else { None };
-        let back_ml = if ct & 3 == 2 { Some(rp as u16) } else { None };
-        let ou = |v: Option<u16>| v.map(|x| x.to_string()).unwrap_or("-".into());
-        run.case("chantype", &format!("{},{},{}", s.ordered as u8, ou(mr), ou(ml)), &format!("{ct},{rp} {},{},{}", back_ord as u8, ou(back_mr), ou(back_ml)), true);
-    } } }
+    // channel-type mapping, every combination, through the real code on both ends: `send_dcep_open` on a channel object
+    // (what it queues is read back with the real `DataChannelOpen::unmarshal`), then that DCEP message goes as a DATA
+    // chunk into a second transport's `handle_packet` → `handle_dcep`, and the channel it creates is read back
+    {
+        let rt = tokio::runtime::Builder::new_current_thread().enable_all().build().unwrap();
+        let mut port = 56_000u16;
+        for ord in [true, false] { for mr in [None, Some(0u16), Some(3), Some(65535)] { for ml in [None, Some(0u16), Some(500), Some(65535)] {
+            let spec = ChanSpec { id: 1, ordered: ord, negotiated: false, max_retransmits: mr, max_lifetime: ml, label: "l".into(), protocol: String::new(), max_payload: None };
+            let ou = |v: Option<u16>| v.map(|x| x.to_string()).unwrap_or("-".into());
+            let out = rt.block_on(async {
+                let tx = Endpoint::new(port, port + 1, true, &EpCfg::default(), &[spec.clone()]).await;
+                let mut rx = Endpoint::new(port + 1, port, false, &EpCfg::default(), &[]).await;
+                let sent = tx.sctp.send_dcep_open(&tx.dcs[0]).await;
+                let q = tx.sctp.verif_snapshot().outbound_queue;
+                let out = match (sent, q.iter().find(|c| c.3 == 50)) {
+                    (Ok(()), Some((_sid, _ssn, _fl, _ppid, payload))) => {
+                        match DataChannelOpen::unmarshal(payload) {
+                            Ok(o) => {
+                                // the receiving end: one DATA chunk (B|E, unordered as DCEP is sent), TSN = cumulative + 1
+                                let cum = rx.sctp.verif_snapshot().cumulative_tsn_ack;
+                                let mut pk = vec![];
+                                pk.extend_from_slice(&(port).to_be_bytes()); pk.extend_from_slice(&(port + 1).to_be_bytes()); pk.extend_from_slice(&0u32.to_be_bytes()); pk.extend_from_slice(&[0; 4]);
+                                let len = 16 + payload.len();
+                                pk.extend_from_slice(&[0, 7]); pk.extend_from_slice(&(len as u16).to_be_bytes());
+                                pk.extend_from_slice(&cum.wrapping_add(1).to_be_bytes()); pk.extend_from_slice(&1u16.to_be_bytes()); pk.extend_from_slice(&0u16.to_be_bytes()); pk.extend_from_slice(&50u32.to_be_bytes());
+                                pk.extend_from_slice(payload); while pk.len() % 4 != 0 { pk.push(0); }
+                                let c = crc32c::crc32c(&pk).to_le_bytes(); pk[8..12].copy_from_slice(&c);
+                                let _ = rx.sctp.verif_handle_packet(Bytes::from(pk)).await;
+                                rx.adopt_new();
+                                let got = rx.channels.lock().iter().filter_map(|w| w.upgrade()).find(|d| d.id == 1)
+                                    .map(|d| format!("{},{},{}", d.ordered as u8, ou(d.max_retransmits), ou(d.max_packet_life_time))).unwrap_or("none".into());
+                                format!("{},{} {got}", o.channel_type, o.reliability_parameter)
+                            }
+                            _ => "unparsable".to_string(),
+                        }
+                    }
+                    _ => "not-sent".to_string(),
+                };
+                tx.shutdown(); rx.shutdown();
+                out
+            });
+            port += 2;
+            run.case("chantype", &format!("{},{},{}", ord as u8, ou(mr), ou(ml)), &out, true);
+        } } }
+    }
+    // the third Close emitter, `PeerConnection::close`: channels created on a real PeerConnection, closed by the
+    // application and / or by close() (twice): never more than one Close per channel
+    {
+        let rt = tokio::runtime::Builder::new_current_thread().enable_all().build().unwrap();
+        for variant in 0..3 {
+            let counts: Vec<usize> = rt.block_on(async {
+                let pc = rustrtc::PeerConnection::new(rustrtc::RtcConfiguration::default());
+                let dcs: Vec<_> = ["a", "b"].iter().filter_map(|l| pc.create_data_channel(l, None).ok()).collect();
+                if variant == 1 { pc.close(); }
+                pc.close();
+                if variant == 2 { pc.close(); pc.close(); }
+                tokio::time::sleep(Duration::from_millis(20)).await;
+                let mut counts = vec![];
+                for dc in &dcs {
+                    let mut n = 0;
+                    while let Some(Some(ev)) = futures::FutureExt::now_or_never(tokio::task::unconstrained(dc.recv())) { if matches!(ev, DataChannelEvent::Close) { n += 1; } }
+                    counts.push(n);
+                }
+                counts
+            });
+            if counts.iter().any(|n| *n > 1) { run.fail("close:more-than-once", &format!("pcclose {variant}"), &format!("PeerConnection::close x{}: Close events per channel {:?}", [1, 2, 3][variant], counts)); }
+            if counts.len() != 2 || counts.iter().any(|n| *n == 0) { run.fail("close:none-from-peer-connection-close", &format!("pcclose {variant}"), &format!("{counts:?}")); }
+            run.count("pcclose_runs");
+        }
+    }
+    // … and on a live association: two real PeerConnections connected over loopback ICE / DTLS (the shared C10 pair),
+    // one in-band channel open at both ends; the application closes the channel and / or the PeerConnection — the
+    // association's cleanup guard and `PeerConnection::close` both walk the channel list, each channel sees one Close
+    {
+        use crate::props::c10::pair::{Cfg, IceOpt, Knobs, Mix, Mode, Pair, wait_open};
+        let rt = tokio::runtime::Builder::new_multi_thread().worker_threads(4).enable_all().build().unwrap();
+        for variant in 0..2 {
+            let res: Result<Vec<usize>, String> = rt.block_on(async {
+                let cfg = Cfg { mode: Mode::WebRtc, mix: Mix::Data, bundle: 0, mux_require: true, ice: IceOpt::Full, latching: false, legacy: false, p_offers: true };
+                let mut p = Pair::create(cfg, &Knobs::default());
+                p.negotiate().await?;
+                p.wait_connected(Duration::from_secs(10)).await?;
+                p.accept_channel(Duration::from_secs(5)).await?;
+                let (odc, adc) = (p.off.dc.clone().ok_or("no offerer channel")?, p.ans.dc.clone().ok_or("no answerer channel")?);
+                wait_open(&odc, Duration::from_secs(5)).await?;
+                if variant == 1 { if let Some(t) = p.off.pc.verif_lc_sctp_transport() { let _ = t.close_data_channel(odc.id).await; } tokio::time::sleep(Duration::from_millis(100)).await; }
+                p.off.pc.close(); p.ans.pc.close();
+                tokio::time::sleep(Duration::from_millis(300)).await;
+                let mut counts = vec![];
+                for dc in [&odc, &adc] {
+                    let mut n = 0;
+                    while let Some(Some(ev)) = futures::FutureExt::now_or_never(tokio::task::unconstrained(dc.recv())) { if matches!(ev, DataChannelEvent::Close) { n += 1; } }
+                    counts.push(n);
+                }
+                Ok(counts)
+            });
+            match res {
+                Ok(counts) => {
+                    if counts.iter().any(|n| *n > 1) { run.fail("close:more-than-once", &format!("pcclose-live {variant}"), &format!("connected PeerConnection pair closed: Close events [offerer, answerer] = {counts:?}")); }
+                    if counts.iter().any(|n| *n == 0) { run.fail("close:none-from-peer-connection-close", &format!("pcclose-live {variant}"), &format!("{counts:?}")); }
+                    run.count("pcclose_live_runs");
+                }
+                Err(e) => { run.count("pcclose_live_setup_failed"); eprintln!("pcclose-live {variant}: setup failed: {e}"); }
+            }
+        }
+    }
     let cs = cases(args, &mut rng);
     let nthreads = std::env::var("VERIF_THREADS").ok().and_then(|v| v.parse().ok()).unwrap_or(6usize);
     let next = std::sync::atomic::AtomicUsize::new(0);
